@@ -1476,6 +1476,50 @@ def validate_connect_loop(rng, n, res):
     res.extra["translation_validation_connect_loop"] = stats
 
 
+def validate_finalize(rng, n, res):
+    """the real `Composition._finalize_components` on stub components and adapters that record their `finalize` calls
+    against the translated definition"""
+    from finam import schedule as sched
+
+    if not common.TRANSLATION_STATUS.get("finalize_components", {}).get("translated"):
+        return
+
+    class _X:
+        def __init__(self, k, log):
+            self.k, self.log, self.name, self.status = k, log, f"x{k}", None
+
+        def finalize(self):
+            self.log.append(self.k)
+
+    reqs, reals = [], []
+    stats = {"finalize_components": 0, "mismatch": 0}
+    for _ in range(n):
+        cs = rng.sample(range(8), rng.randint(0, 4))
+        ads = rng.sample(range(10, 20), rng.randint(0, 5))
+        fin, fa = [], []
+        comp = sched.Composition.__new__(sched.Composition)
+        comp._logger_name, comp._logger = "finam_verif", None
+        comp._components = [_X(k, fin) for k in cs]
+        objs = [_X(k, fa) for k in ads]
+        comp._adapters = set(objs)
+        comp._check_status = lambda c, allowed: None
+        order = [o.k for o in comp._adapters]       # the order in which this Python set is iterated
+        try:
+            sched.Composition._finalize_components(comp)
+            real = {"ok": [list(fin), list(fa)]}
+        except Exception as e:  # noqa
+            real = {"err": err_class(e)}
+        reqs.append({"fn": "finalize_components", "args": [cs, order, [], []]})
+        reals.append(real)
+    for rq, real, lv in zip(reqs, reals, _trdriver(reqs)):
+        stats["finalize_components"] += 1
+        agree = (real.get("err") == lv.get("err")) if ("err" in real or "err" in lv) else [list(lv["ok"][0]), list(lv["ok"][1])] == real["ok"]
+        if not agree:
+            stats["mismatch"] += 1
+            res.diverge("translation/" + rq["fn"], {"fn": rq["fn"], "args": rq["args"]}, real, lv)
+    res.extra["translation_validation_finalize"] = stats
+
+
 def validate(prop, rng, n_per_fn, res):
     """runs the validation for the translated functions owned by `prop`; divergences go to `res`"""
     if prop in ("C13", "C02") and os.path.exists(TRDRIVER):
@@ -1492,6 +1536,8 @@ def validate(prop, rng, n_per_fn, res):
         validate_regrid(rng, max(400, 3 * n_per_fn), res)
     if prop == "C07" and os.path.exists(TRDRIVER):
         validate_info(rng, max(1500, 10 * n_per_fn), res)
+    if prop == "C03" and os.path.exists(TRDRIVER):
+        validate_finalize(rng, max(100, n_per_fn), res)
     if prop == "C03" and os.path.exists(TRDRIVER):
         validate_collect_heap(rng, max(20, n_per_fn), res)
     if prop == "C03" and os.path.exists(TRDRIVER):
